@@ -127,6 +127,7 @@ def inproc(ctx):
     for i in range(ctx.n(50, 600)):
         cfg = {"shape": rng.choice(["pg", "cyg"]), "trig": {}, "pattern": rng.choice(["simple", "regex", "glob"])}
         facts = rng.choice(["none", "none", "all", "mixed"])
+        use_caller = rng.random() < 0.35
         for k in rng.sample(range(6), rng.randrange(1, 5)):
             tr = {}
             if rng.random() < 0.5:
@@ -136,6 +137,10 @@ def inproc(ctx):
                 tr["depth"] = rng.choice([1, 1, 2, 3])
             if rng.random() < 0.45 and (cfg["shape"] == "cyg" or "filter" in tr or "depth" in tr):
                 tr["time"] = rng.choice([0, 1, 5, 10, 100])
+            if rng.random() < 0.2:
+                tr["trace"] = True
+            if use_caller and rng.random() < 0.4:
+                tr["caller"] = True
             if tr:
                 cfg["trig"][k] = tr
         if rng.random() < 0.6:
@@ -177,11 +182,13 @@ def inproc(ctx):
 
     def opt(v, f="%d"):
         return "None" if v is None else "Some " + (f % v)
-    sel2_terms = ["ok_sel2 [%s] %s %d %d %s %s" % (
-        "; ".join("(%d, {| sf := %s; sd := %s; stm := %s |})" % (
+    sel2_terms = ["ok_sel2 [%s] %s %s %d %d %s %s" % (
+        "; ".join("(%d, {| sf := %s; sd := %s; stm := %s; str := %s; sc := %s |})" % (
             256 * k, "None" if t.get("filter") is None else "Some " + coq.coq_bool(t["filter"]),
-            opt(t.get("depth")), opt(t.get("time"))) for k, t in sorted(c["cfg"]["trig"].items())),
+            opt(t.get("depth")), opt(t.get("time")), coq.coq_bool(t.get("trace")), coq.coq_bool(t.get("caller")))
+            for k, t in sorted(c["cfg"]["trig"].items())),
         coq.coq_bool(any(t.get("filter") is True for t in c["cfg"]["trig"].values())),
+        coq.coq_bool(any(t.get("caller") for t in c["cfg"]["trig"].values())),
         c["cfg"].get("depth") if c["cfg"].get("depth") is not None else 1024, c["cfg"].get("threshold") or 0,
         F.coq_forest(c["forest"]), mcgen.coq_recs(c["res"]["recs"])) for c in sel2cases]
     defs += "Definition sel2chk : list bool := [\n%s\n].\n" % ";\n".join(sel2_terms)
@@ -228,7 +235,7 @@ def inproc(ctx):
                        "env": mch.cfg_env(c["cfg"])}, True)
     for j in R["sel2"][:2]:
         c = sel2cases[j]
-        ctx.violation("C05: recorded trace differs from the documented semantics of -F/-N/-D/-t with depth=/time= "
+        ctx.violation("C05: recorded trace differs from the documented semantics of -F/-N/-C/-D/-t with depth=/time=/trace "
                       "triggers (specification sel2)",
                       {"mode": "inproc", "cfg": c["cfg"], "events": c["evs"], "impl_records": c["res"]["recs"],
                        "env": mch.cfg_env(c["cfg"])}, True)
